@@ -539,6 +539,59 @@ func probePool(k *mon.Case, r *rand.Rand, n *node.Node) {
 		size := checkPool(k, n, "after-gossip-message")
 		k.Nontrivial(fmt.Sprintf("gossip|%v|res%d|pool%d", kinds, int(res), size/3))
 	}
+	// (1b) directed: single commits for the height just before a validator-set change, signed
+	// (validly) by validators that are only in the NEW set: they are not active at that height
+	for _, pr := range v.params {
+		if pr.Height < 2 || pr.Height-1 > tip {
+			continue
+		}
+		h := pr.Height - 1
+		hdr, err := n.Chain.DataAccess().GetBlockHeaderByHeight(h)
+		if err != nil {
+			continue
+		}
+		setH, _ := v.validatorsAt(h)
+		setC, _ := v.validatorsAt(pr.Height)
+		if setH == nil || setC == nil {
+			continue
+		}
+		inH := map[int]bool{}
+		for _, va := range setH {
+			inH[va.v.Index] = true
+		}
+		for _, va := range setC {
+			if inH[va.v.Index] {
+				continue
+			}
+			k.Eval(1)
+			sc := certificate.NewSingleCommit(hdr, va.v.Address, chainID, va.v.BLS.PrivateKey)
+			res := n.Exec.VerifSingleCommitValidator(context.Background(), p2p.NewMessage(encodeCommits([]*certificate.SingleCommit{sc})))
+			k.Count("commits_by_incoming_validator_before_change", 1)
+			if res == p2p.ValidationAccept {
+				k.Violation("pool:validator-returned-accept", "singleCommitValidator returned Accept", nil)
+			}
+			checkPool(k, n, "after-commit-of-incoming-validator-before-set-change")
+			k.Nontrivial(fmt.Sprintf("pre-change|res%d", int(res)))
+		}
+		inC := map[int]bool{}
+		for _, va := range setC {
+			inC[va.v.Index] = true
+		}
+		for _, va := range setH {
+			if inC[va.v.Index] {
+				continue
+			}
+			sc := certificate.NewSingleCommit(hdr, va.v.Address, chainID, va.v.BLS.PrivateKey)
+			before := n.Exec.VerifCertificatePool().Size()
+			res := n.Exec.VerifSingleCommitValidator(context.Background(), p2p.NewMessage(encodeCommits([]*certificate.SingleCommit{sc})))
+			if res == p2p.ValidationReject {
+				k.Count("valid_commit_of_outgoing_validator_rejected(not judged)", 1)
+			} else if n.Exec.VerifCertificatePool().Size() > before {
+				k.Count("valid_commit_of_outgoing_validator_pooled", 1)
+			}
+			checkPool(k, n, "after-commit-of-outgoing-validator-before-set-change")
+		}
+	}
 	// (2) internal path: Certify for some validators over (from, to]
 	fin := n.Finalized()
 	certifiedBy := map[int]bool{} // the node calls Certify once per finality raise and validator
